@@ -131,6 +131,9 @@ func runC08(p *Prog, r *Report) {
 	if want("C08.8") {
 		ruleReadErrorsSurface(p, r, "C08.8")
 	}
+	if want("C08.12") {
+		ruleStrictFlagRoles(p, r, "C08.12")
+	}
 	if want("C08.9") {
 		ruleIOErrorNotCorruption(p, r, "C08.9")
 	}
